@@ -47,7 +47,7 @@ THEOREMS = [
     ('c14_old_low_bits_periodic',
      'forall (k n : nat) (st : Z), (k <= 64)%nat -> (forall s, snd (next_raw_old s) = lcg_step s /\\ fst (next_raw_old s) = lcg_step s) /\\ state_after (2 ^ k + n) st mod 2 ^ Z.of_nat k = state_after n st mod 2 ^ Z.of_nat k'),
     ('c14_fairness_partial',
-     'forall (n : N) (p : list Z), (n = 4 \\/ n = 5 \\/ n = 6)%N -> Permutation p (zseq n) -> exists seed, In seed (seeds_for n) /\\ 0 <= seed < 2 ^ 64 /\\ shuffle_rng seed (zseq n) = Some p'),
+     'forall (n : N) (p : list Z), (n <= 6)%N -> Permutation p (zseq n) -> exists seed, In seed (seeds_for n) /\\ 0 <= seed < 2 ^ 64 /\\ shuffle_rng seed (zseq n) = Some p'),
     ('c14_float_in_range',
      'forall (s e : spec_float) (raw : Z), SFltb s e = true -> exists x, float_range s e raw = Some x /\\ SFleb s x = true /\\ SFltb x e = true'),
     ('c14_float_empty_panics',
